@@ -203,6 +203,12 @@ def seq_in(t):
     return t.packetizer._Packetizer__sequence_number_in
 
 
+def root_exc(e):
+    """the exception that really ended the loop (the transport thread wraps unexpected classes in SSHException)"""
+    c = getattr(e, "__cause__", None)
+    return c if (c is not None and str(e).startswith("Unexpected ")) else e
+
+
 def exc_class(e):
     """saved_exception -> the model's error enum"""
     import paramiko
@@ -210,6 +216,10 @@ def exc_class(e):
 
     if e is None:
         return "-"
+    cause = getattr(e, "__cause__", None)
+    if isinstance(e, SSHException) and cause is not None and str(e).startswith("Unexpected "):
+        # the transport thread reports unexpected exception classes wrapped in SSHException (cause preserved)
+        return "key-error" if isinstance(cause, KeyError) else "internal"
     if isinstance(e, MessageOrderError):
         return "strict-order"
     if isinstance(e, IncompatiblePeer):
